@@ -2,7 +2,7 @@ import Qryn.Gen.ReadSide
 import Qryn.Proofs.ReadParams
 /-! The code variants the C12 theorems talk about (constants regenerated from source) and the response-class
     lemmas for the Loki service path. -/
-namespace Qryn.Read
+namespace Qryn.ReadSide
 open Qryn.Gen
 
 /-- the code as it is now (the fixes A24, A21, A35 … applied), with the constants regenerated from source -/
@@ -48,4 +48,4 @@ theorem lokiService_answered (fromNs toNs stepMs : Int) (pl : Plan) (db : DbScri
             exact hguard
           · exact innerSync_answered _ _ _ _
 
-end Qryn.Read
+end Qryn.ReadSide
